@@ -80,7 +80,7 @@ class C11:
                 out.append({"kind": "schema", "flags": flags, "pre": pre, "register": good, "text": text, "expect": expect})
                 for k, p in enumerate(good):
                     out.append({"kind": "schema", "flags": flags, "pre": pre, "register": [p], "text": text, "expect": [expect[k]]})
-                broken = ["multi|", "|multi|x|", "nosuch|x", "i|x", "multi|x|", "tm|deep|", "single|nosuch", "multi|nosuch|x", "", "|", "tm=a|x", "multi=0|x", "single|inner|z|"]
+                broken = ["multi|", "|multi|x|", "|multi|x", "||single|x", "|i", "nosuch|x", "i|x", "multi|x|", "tm|deep|", "single|nosuch", "multi|nosuch|x", "", "|", "tm=a|x", "multi=0|x", "single|inner|z|"]
                 out.append({"kind": "schema", "flags": flags, "pre": pre, "register": broken, "text": text, "expect": []})
         return out
 
